@@ -3,6 +3,7 @@ package rules
 import (
 	"fmt"
 	"go/ast"
+	"go/token"
 	"sort"
 	"strings"
 
@@ -24,6 +25,8 @@ func C06(c *Ctx) {
 	r.Rule("C06-b2", "getMemoized reads p.memo[p.pt.offset][node]; setMemoized writes p.memo[<savepoint>.offset][node] = tuple; p.memo has no other writer; lookup and store in parseExprWrap are guarded by the same expression")
 	r.Rule("C06-c", "ChoiceAltCnt / choiceNoMatch / Stats are touched only by incChoiceAltCnt, the Statistics option and newParser; incChoiceAltCnt returns nothing; ExprCnt is read only in `p.ExprCnt > p.maxExprCnt` and incremented only in parseExpr")
 	r.Rule("C06-d", "with LeftRecursion: under Memoize a left-recursive rule is never routed through the rule memo (a memoised first failure would be replayed on every growth step), and expression memoisation is off inside such rules")
+	r.Rule("C06-e", "an expression is answered from the memo table only if what its evaluation does is determined by the node and the offset: a kind whose evaluator stores into the label scope of its caller (a labelled expression binds its label there) or runs a code block on that scope without evaluating an operand of its own first (the code predicates: the labels they read were bound by an enclosing sequence that may have started elsewhere) is excluded from the lookup in parseExprWrap")
+	r.Rule("C06-f", "errList.add appends every error it is given: which errors are reported does not depend on how many were recorded before (re-evaluations add duplicates that only dedupe removes, so a cap or filter in add makes the result depend on Memoize)")
 	r.Rule("C06-w", "configuration flags are assigned only by their option function (and newParser defaults): memoize, debug, recover, allowInvalidUTF8, maxExprCnt, entrypoint")
 
 	abs := c.allAbs()
@@ -47,6 +50,8 @@ func C06(c *Ctx) {
 		c06b(c, a)
 		c06c(c, a.V)
 		c06d(c, a)
+		c06e(c, a.V)
+		errListKeepsAll(c, a.V, "C06-f")
 	}
 	r.Min("non-optimized variants", 8, n)
 }
@@ -305,18 +310,55 @@ func c06b(c *Ctx, a *absVariant) {
 			r.Ok("C06-b", "T."+fn+":memo-discipline", vn, w, fmt.Sprintf("%d store paths, %d hit paths", nStore, nHit))
 		}
 	}
-	// same guard at lookup and store in parseExprWrap
+	// same guard at lookup and store in parseExprWrap: the conditions in force at the two calls are the same, and they
+	// include p.memoize - itself, or a local that is only ever p.memoize or false (memoization switched off for some nodes)
 	fd := v.Func("parser", "parseExprWrap")
 	var gGet, gSet []string
 	for _, ce := range callsIn(fd.Body) {
 		switch callSel(ce) {
 		case "getMemoized":
-			gGet = guardsOf(fd.Body, ce.Pos())
+			gGet = factsAt(fd.Body, ce.Pos())
 		case "setMemoized":
-			gSet = guardsOf(fd.Body, ce.Pos())
+			gSet = factsAt(fd.Body, ce.Pos())
 		}
 	}
-	r.Check(len(gGet) == 1 && strings.Join(gGet, ";") == strings.Join(gSet, ";") && strings.HasPrefix(gGet[0], "p.memoize"), "C06-b2", "T.parseExprWrap:same-guard-at-get-and-set", vn, v.Where(fd.Pos()),
+	impliesMemoize := func(gs []string) bool {
+		for _, gd := range gs {
+			if gd == "p.memoize" {
+				return true
+			}
+			if token.IsIdentifier(gd) {
+				okDefs, n := true, 0
+				ast.Inspect(fd.Body, func(nd ast.Node) bool {
+					if as, ok := nd.(*ast.AssignStmt); ok {
+						for k, l := range as.Lhs {
+							if nospace(l) == gd && k < len(as.Rhs) {
+								n++
+								if rhs := nospace(as.Rhs[k]); rhs != "p.memoize" && rhs != "false" {
+									okDefs = false
+								}
+							}
+						}
+					}
+					return true
+				})
+				if okDefs && n > 0 {
+					return true
+				}
+			}
+		}
+		return false
+	}
+	splitAll := func(gs []string) []string {
+		var out []string
+		for _, gd := range gs {
+			out = append(out, splitTop(gd, "&&")...)
+		}
+		sort.Strings(out)
+		return out
+	}
+	gGet, gSet = splitAll(gGet), splitAll(gSet)
+	r.Check(len(gGet) >= 1 && strings.Join(gGet, ";") == strings.Join(gSet, ";") && impliesMemoize(gGet), "C06-b2", "T.parseExprWrap:same-guard-at-get-and-set", vn, v.Where(fd.Pos()),
 		"both under `"+strings.Join(gGet, ";")+"`", "lookup under ["+strings.Join(gGet, ";")+"], store under ["+strings.Join(gSet, ";")+"]")
 	// table accessors
 	gm, sm := v.Func("parser", "getMemoized"), v.Func("parser", "setMemoized")
@@ -623,4 +665,120 @@ func memoTableTotal(c *Ctx, v *variants.Variant, rule string) {
 		bad = append(bad, "no path returns the stored tuple")
 	}
 	r.Check(len(bad) == 0, rule, "T.getMemoized:returns-what-was-stored", vn, v.Where(gm.Pos()), fmt.Sprintf("%d paths: misses only for an empty table, otherwise the map's answer", len(paths)), strings.Join(uniq(bad), "; "))
+}
+
+// c06e: kinds that may not be served from the memo table (rule C06-e).
+func c06e(c *Ctx, v *variants.Variant) {
+	r := c.R
+	vn := v.Name
+	pw := v.Func("parser", "parseExprWrap")
+	pe := v.Func("parser", "parseExpr")
+	if pw == nil || pe == nil {
+		r.Fatal("variant %s: parseExprWrap / parseExpr missing", vn)
+		return
+	}
+	// the evaluator of every kind, from the dispatch in parseExpr
+	si := typeSwitchOn(pe, firstParam(pe))
+	nc := c.vnorm(v).without("parseExprWrap", "parseExpr", "pushV", "popV", "restore", "restoreState", "cloneState", "addErr", "addErrAt", "failAt", "read", "sliceFrom")
+	var scoped []string
+	reason := map[string]string{}
+	for kind, cc := range si.Cases {
+		var ev *ast.FuncDecl
+		for _, ce := range callsIn(cc) {
+			if f := v.Func("parser", callSel(ce)); f != nil && strings.HasPrefix(callSel(ce), "parse") {
+				ev = f
+			}
+		}
+		if ev == nil {
+			continue
+		}
+		rv := recvName(ev)
+		for _, p0 := range nc.normPaths(ev) {
+			p := substAliases(p0, func(s string) bool { return strings.HasPrefix(s, rv+".vstack[") })
+			depth := 0
+			evaluated := false
+			for _, e := range p {
+				switch {
+				case e.Kind == "call" && e.Text == rv+".pushV()":
+					depth++
+				case e.Kind == "call" && e.Text == rv+".popV()":
+					depth--
+				case e.Kind == "call" && strings.HasPrefix(e.Text, rv+".parseExprWrap("):
+					evaluated = true
+				case e.Kind == "set" && strings.HasPrefix(e.Text, rv+".vstack[len("+rv+".vstack)-1][") && depth == 0:
+					reason[kind] = "binds a label in the scope of its caller"
+				case e.Kind == "call" && strings.HasSuffix(e.Text, ".run("+rv+")") && depth == 0 && !evaluated:
+					// a code block run on the caller's scope; state blocks (no boolean result) are outside C06's grammars
+					if res := ev.Type.Results; res != nil {
+						for _, e2 := range p {
+							if e2.Kind == "set" && strings.Contains(e2.Text, "=res1("+e.Text+")") || e2.Kind == "set" && strings.Contains(e2.Text, "=res0("+e.Text+")") {
+								if strings.Contains(p.String(), "res1("+e.Text+")") {
+									reason[kind] = "runs a predicate block that reads the labels of its caller's scope"
+								}
+							}
+						}
+					}
+				}
+			}
+		}
+		if reason[kind] != "" {
+			scoped = append(scoped, kind)
+		}
+	}
+	sort.Strings(scoped)
+	if len(scoped) == 0 {
+		r.Fatal("variant %s: no evaluator that binds or reads its caller's label scope was recognised (anchor lost)", vn)
+		return
+	}
+	// the lookup in parseExprWrap: which kinds are excluded where getMemoized is called
+	x := firstParam(pw)
+	var lookup *ast.CallExpr
+	for _, ce := range callsIn(pw.Body) {
+		if callSel(ce) == "getMemoized" {
+			lookup = ce
+		}
+	}
+	if lookup == nil {
+		r.Fatal("variant %s: parseExprWrap has no memo lookup", vn)
+		return
+	}
+	facts := factsAt(pw.Body, lookup.Pos())
+	switched := map[string]bool{}
+	ast.Inspect(pw.Body, func(n ast.Node) bool {
+		if ts, ok := n.(*ast.TypeSwitchStmt); ok && ts.End() < lookup.Pos() && typeSwitchOperand(ts) == x {
+			for _, cl := range ts.Body.List {
+				for _, t := range cl.(*ast.CaseClause).List {
+					switched[strings.TrimPrefix(nospace(t), "*")] = true
+				}
+			}
+		}
+		return true
+	})
+	for _, kind := range scoped {
+		excluded := switched[kind]
+		for _, f := range facts {
+			if f == "!ok("+x+".(*"+kind+"))" {
+				excluded = true
+			}
+		}
+		r.Check(excluded, "C06-e", "T.parseExprWrap:memo-excludes="+kind, vn, v.Where(lookup.Pos()), "not answered from the memo table",
+			"*"+kind+" "+reason[kind]+", but a memo hit in parseExprWrap skips its evaluation: under Memoize(true) the label stays unbound / the predicate's first answer is replayed for other label values, so results differ from the default options")
+	}
+}
+
+// typeSwitchOperand: the expression text a type switch switches on.
+func typeSwitchOperand(ts *ast.TypeSwitchStmt) string {
+	var e ast.Expr
+	switch a := ts.Assign.(type) {
+	case *ast.ExprStmt:
+		e = a.X
+	case *ast.AssignStmt:
+		if len(a.Rhs) == 1 {
+			e = a.Rhs[0]
+		}
+	}
+	if ta, ok := e.(*ast.TypeAssertExpr); ok {
+		return nospace(ta.X)
+	}
+	return ""
 }
